@@ -16,11 +16,20 @@
                              `match_eq_doc_partial`, its documented criteria (`DocSpec`) hold;
     * `unmatched_never_invoked` — a handler id none of whose registrations qualifies is not invoked.
 
-  The split, stated: the converse ("every handler whose criteria hold IS invoked") is not a C15
-  fact — a matching handler that already succeeded, sleeps until its retry time, or waits for its
-  turn under a one-by-one lifecycle is selected and not invoked in this pass; when and how often a
-  selected handler runs is C02 (`no_rerun`, `once_per_cycle`, `closed_iff_all_finished`) and C03
-  (convergence). This module is kept apart from Props/C15.lean so that it alone depends on C02.
+    * `matching_due_invoked` / `matching_invoked_fresh` — the converse ("exactly", ⊇ direction) for the
+                             changing registry under the all-at-once lifecycle, composing
+                             `C02.due_invoked_all_at_once`: a handler that passes gate ∧ match, is not a
+                             resuming handler already finished in this process (/repo 6c4463d) and is
+                             still due (awake, within retries/timeout) IS invoked in this pass; for a
+                             fresh object every such handler is invoked with retry 0.
+
+  The split, stated: a matching handler that already succeeded, sleeps until its retry time, or
+  waits for its turn under a one-by-one/asap lifecycle is selected and not invoked in this pass;
+  when and how often a selected handler runs is C02 (`no_rerun`, `once_per_cycle`,
+  `closed_iff_all_finished`) and C03 (convergence). "Invoked = selected" for on.event / daemon /
+  timer / index handlers has no theorem (the cycle tie observes it on the real code). The statements
+  are id-level (`C02.Id`): with two functions registered under one id they do not say which one ran.
+  This module is kept apart from Props/C15.lean so that it alone depends on C02.
 -/
 import Kopf.Props.C15
 import Kopf.Props.C02
@@ -37,18 +46,29 @@ def reasonName : C05.Reason → String
     `owned = get_resource_handlers(resource)` (all handlers of the resource, deduplicated),
     `selected = get_handlers(cause)`; limits and lifecycle are C02's parameters. -/
 def c02Cfg (hs : List (Handler V)) (c : Cause V) (limits : C02.Id → C02.Limits)
-    (lifecycle : C02.Lifecycle) : C02.Cfg :=
+    (lifecycle : C02.Lifecycle) (resumed : List String := []) : C02.Cfg :=
   { owned := ids (dedup (hs.filter matchesResource)),
-    selected := ids (getHandlersChanging hs c []),
+    selected := ids (causeHandlers hs c resumed),
     limits := limits, reason := reasonName c.kind.reason, lifecycle := lifecycle }
 
-/-- C02's side condition, from the C15 model: what a cause selects is owned by the resource -/
+/-- membership in `cause_handlers` -/
+theorem mem_causeHandlers (hs : List (Handler V)) (c : Cause V) (resumed : List String) (h : Handler V) :
+    h ∈ causeHandlers hs c resumed ↔
+      h ∈ getHandlersChanging hs c [] ∧ ¬(h.kind.initial = true ∧ h.id ∈ resumed) := by
+  simp only [causeHandlers, resumedKeepCore, List.mem_filter, Bool.not_eq_true', Bool.and_eq_false_iff,
+    List.contains_eq_mem, decide_eq_false_iff_not, and_congr_right_iff]
+  intro _
+  cases h.kind.initial <;> simp
+
+/-- C02's side condition, from the C15 model: what a cause selects is owned by the resource
+    (a lemma, not a property statement) -/
 theorem selected_sub_owned (hs : List (Handler V)) (c : Cause V) (limits : C02.Id → C02.Limits)
-    (lc : C02.Lifecycle) : ∀ i ∈ (c02Cfg hs c limits lc).selected, i ∈ (c02Cfg hs c limits lc).owned := by
+    (lc : C02.Lifecycle) (resumed : List String) :
+    ∀ i ∈ (c02Cfg hs c limits lc resumed).selected, i ∈ (c02Cfg hs c limits lc resumed).owned := by
   intro i hi
   simp only [c02Cfg, ids, List.mem_map] at hi ⊢
   obtain ⟨h, hh, rfl⟩ := hi
-  obtain ⟨hmem, _, _, hm⟩ := (selected_sound hs c [] h).1 hh
+  obtain ⟨hmem, _, _, hm⟩ := (selected_sound hs c [] h).1 ((mem_causeHandlers hs c resumed h).1 hh).1
   have hres : matchesResource h = true := by
     simp only [matchHandler, matchCore, matchAtoms, Bool.and_eq_true] at hm
     exact hm.1.1.1.1.1.1
@@ -57,43 +77,89 @@ theorem selected_sub_owned (hs : List (Handler V)) (c : Cause V) (limits : C02.I
   obtain ⟨h', hh', hkey⟩ := List.mem_map.1 ((dedup_ids_same _ _).2 hk)
   exact ⟨h', hh', congrArg Prod.snd hkey⟩
 
-/-- every handler invoked in the pass satisfies its declared criteria, and is awake -/
+/-- every handler invoked in the pass satisfies its declared criteria, is awake, and is not a
+    resuming handler that already finished for this object in this process -/
 theorem invoked_sound (hs : List (Handler V)) (c : Cause V) (limits : C02.Id → C02.Limits)
-    (lc : C02.Lifecycle) (P : C02.Store) (now now1 : C02.Tick) (exec : C02.Id → Nat → C02.Outcome)
-    (i : C02.Id) (n : Nat)
-    (hinv : (i, n) ∈ (C02.cycle (c02Cfg hs c limits lc) P now now1 exec).invoked) :
-    (∃ h ∈ hs, h.id = i ∧ gate h c = true ∧ matchHandler h c = true) ∧
+    (lc : C02.Lifecycle) (resumed : List String) (P : C02.Store) (now now1 : C02.Tick)
+    (exec : C02.Id → Nat → C02.Outcome) (i : C02.Id) (n : Nat)
+    (hinv : (i, n) ∈ (C02.cycle (c02Cfg hs c limits lc resumed) P now now1 exec).invoked) :
+    (∃ h ∈ hs, h.id = i ∧ gate h c = true ∧ matchHandler h c = true ∧
+      ¬(h.kind.initial = true ∧ h.id ∈ resumed)) ∧
     (∀ r d, P i = some r → r.delayed = some d → d ≤ now) := by
-  obtain ⟨hsel, hawake⟩ := C02.invoked_selected_awake (c02Cfg hs c limits lc) P now now1 exec
-    (selected_sub_owned hs c limits lc) i n hinv
+  obtain ⟨hsel, hawake⟩ := C02.invoked_selected_awake (c02Cfg hs c limits lc resumed) P now now1 exec
+    (selected_sub_owned hs c limits lc resumed) i n hinv
   refine ⟨?_, hawake⟩
   simp only [c02Cfg, ids, List.mem_map] at hsel
   obtain ⟨h, hh, rfl⟩ := hsel
-  obtain ⟨hmem, _, hg, hm⟩ := (selected_sound hs c [] h).1 hh
-  exact ⟨h, hmem, rfl, hg, hm⟩
+  obtain ⟨hg', hkeep⟩ := (mem_causeHandlers hs c resumed h).1 hh
+  obtain ⟨hmem, _, hg, hm⟩ := (selected_sound hs c [] h).1 hg'
+  exact ⟨h, hmem, rfl, hg, hm, hkeep⟩
 
-/-- … hence its documented criteria hold (under the guards of `match_eq_doc_partial`, which are
-    void for update handlers except the two callback/token ones) -/
-theorem invoked_doc (hs : List (Handler V)) (c : Cause V) (limits : C02.Id → C02.Limits)
-    (lc : C02.Lifecycle) (P : C02.Store) (now now1 : C02.Tick) (exec : C02.Id → Nat → C02.Outcome)
-    (i : C02.Id) (n : Nat)
-    (hguards : ∀ h ∈ hs, TokenBlind h ∧ NoTokenLit h ∧ OldOnlyFree h c)
-    (hinv : (i, n) ∈ (C02.cycle (c02Cfg hs c limits lc) P now now1 exec).invoked) :
+/-- … hence its documented criteria hold — under the guards of `match_eq_doc_partial` (findings
+    C15-F1/F2) for every registered handler -/
+theorem invoked_doc_partial (hs : List (Handler V)) (c : Cause V) (limits : C02.Id → C02.Limits)
+    (lc : C02.Lifecycle) (resumed : List String) (P : C02.Store) (now now1 : C02.Tick)
+    (exec : C02.Id → Nat → C02.Outcome) (i : C02.Id) (n : Nat)
+    (hguards : ∀ h ∈ hs, TokenFree h c ∧ OldOnlyFree h c)
+    (hinv : (i, n) ∈ (C02.cycle (c02Cfg hs c limits lc resumed) P now now1 exec).invoked) :
     ∃ h ∈ hs, h.id = i ∧ gate h c = true ∧ DocSpec h c := by
-  obtain ⟨⟨h, hmem, hid, hg, hm⟩, _⟩ := invoked_sound hs c limits lc P now now1 exec i n hinv
-  obtain ⟨g1, g2, g3⟩ := hguards h hmem
-  exact ⟨h, hmem, hid, hg, (match_eq_doc_partial h c g1 g2 g3).1 hm⟩
+  obtain ⟨⟨h, hmem, hid, hg, hm, _⟩, _⟩ := invoked_sound hs c limits lc resumed P now now1 exec i n hinv
+  obtain ⟨g1, g2⟩ := hguards h hmem
+  exact ⟨h, hmem, hid, hg, (match_eq_doc_partial h c g1 g2).1 hm⟩
 
 /-- a handler id none of whose registrations passes gate ∧ match is not invoked, whatever the
     recorded progress, the lifecycle and the outcomes are -/
 theorem unmatched_never_invoked (hs : List (Handler V)) (c : Cause V) (limits : C02.Id → C02.Limits)
-    (lc : C02.Lifecycle) (P : C02.Store) (now now1 : C02.Tick) (exec : C02.Id → Nat → C02.Outcome)
+    (lc : C02.Lifecycle) (resumed : List String) (P : C02.Store) (now now1 : C02.Tick)
+    (exec : C02.Id → Nat → C02.Outcome)
     (i : C02.Id) (hno : ∀ h ∈ hs, h.id = i → (gate h c && matchHandler h c) = false) (n : Nat) :
-    (i, n) ∉ (C02.cycle (c02Cfg hs c limits lc) P now now1 exec).invoked := by
+    (i, n) ∉ (C02.cycle (c02Cfg hs c limits lc resumed) P now now1 exec).invoked := by
   intro hinv
-  obtain ⟨⟨h, hmem, hid, hg, hm⟩, _⟩ := invoked_sound hs c limits lc P now now1 exec i n hinv
+  obtain ⟨⟨h, hmem, hid, hg, hm, _⟩, _⟩ := invoked_sound hs c limits lc resumed P now now1 exec i n hinv
   have := hno h hmem hid
   simp [hg, hm] at this
+
+/-- the id of a qualifying registration is among the pass's `cause_handlers` -/
+theorem qualifying_selected (hs : List (Handler V)) (c : Cause V) (limits : C02.Id → C02.Limits)
+    (lc : C02.Lifecycle) (resumed : List String) (h : Handler V) (hmem : h ∈ hs)
+    (hg : gate h c = true) (hm : matchHandler h c = true) (hres : h.id ∉ resumed) :
+    h.id ∈ (c02Cfg hs c limits lc resumed).selected := by
+  obtain ⟨h', hh', hk⟩ := ((selected_iff hs c [] h.key).1).2 ⟨h, hmem, rfl, by simp, hg, hm⟩
+  have hid : h'.id = h.id := congrArg Prod.snd hk
+  simp only [c02Cfg, ids, List.mem_map]
+  exact ⟨h', (mem_causeHandlers hs c resumed h').2 ⟨hh', fun x => hres (hid ▸ x.2)⟩, hid⟩
+
+/-- THE CONVERSE (all-at-once lifecycle): a registered handler that passes the cause-kind gate and
+    all its declared criteria, whose id is not among the resuming handlers already finished here,
+    and that is still due (not finished, not sleeping, within its retries/timeout) IS invoked in this
+    pass, with `retry` = its recorded attempts -/
+theorem matching_due_invoked (hs : List (Handler V)) (c : Cause V) (limits : C02.Id → C02.Limits)
+    (resumed : List String) (P : C02.Store) (now now1 : C02.Tick) (exec : C02.Id → Nat → C02.Outcome)
+    (hr : C02.handlerReasons.contains (reasonName c.kind.reason) = true)
+    (h : Handler V) (hmem : h ∈ hs) (hg : gate h c = true) (hm : matchHandler h c = true)
+    (hres : h.id ∉ resumed)
+    (haw : (C02.startRec (c02Cfg hs c limits .allAtOnce resumed) P now
+      (C02.extras (c02Cfg hs c limits .allAtOnce resumed) P now) h.id).awakened now = true)
+    (hpre : C02.precheckFails (limits h.id) (C02.startRec (c02Cfg hs c limits .allAtOnce resumed) P now
+      (C02.extras (c02Cfg hs c limits .allAtOnce resumed) P now) h.id) now = false) :
+    (h.id, match P h.id with | some r => r.retries | none => 0) ∈
+      (C02.cycle (c02Cfg hs c limits .allAtOnce resumed) P now now1 exec).invoked := by
+  have hsel := qualifying_selected hs c limits .allAtOnce resumed h hmem hg hm hres
+  exact C02.due_invoked_all_at_once (c02Cfg hs c limits .allAtOnce resumed) P now now1 exec hr rfl h.id hsel
+    (selected_sub_owned hs c limits .allAtOnce resumed h.id hsel) haw hpre
+
+/-- … in particular on a fresh object (no progress records, no limits): every handler whose gate and
+    criteria hold is invoked, with retry 0 — together with `invoked_sound`: invoked = matching -/
+theorem matching_invoked_fresh (hs : List (Handler V)) (c : Cause V) (now now1 : C02.Tick)
+    (exec : C02.Id → Nat → C02.Outcome)
+    (hr : C02.handlerReasons.contains (reasonName c.kind.reason) = true)
+    (h : Handler V) (hmem : h ∈ hs) (hg : gate h c = true) (hm : matchHandler h c = true) :
+    (h.id, 0) ∈ (C02.cycle (c02Cfg hs c (fun _ => ⟨none, none⟩) .allAtOnce []) (fun _ => none) now now1 exec).invoked := by
+  have := matching_due_invoked hs c (fun _ => ⟨none, none⟩) [] (fun _ => none) now now1 exec hr h hmem hg hm
+    (by simp)
+    (by simp [C02.startRec, C02.fresh, C02.Rec.awakened, C02.Rec.finished, C02.Rec.sleeping])
+    (by simp [C02.precheckFails])
+  simpa using this
 
 -- non-vacuity: an `on.create(labels={'lk': PRESENT})` handler on a fresh labelled object is invoked
 -- (retry 0), so the hypothesis of `invoked_sound` is met by a concrete pass; without the label the
